@@ -132,6 +132,8 @@ pub enum Op {
     VSwapRemove(usize),
     VResize(usize, Value),
     VSetAt(usize, Value),
+    /// overwrite every element through `iter_mut()`
+    VIterMutFill(Value),
     SPush(char),
     SPushStr(String),
     SClear,
@@ -502,6 +504,12 @@ impl<T: SizedShape, L: LenShape> Shape for FlatVec<T, L> {
         if self.is_empty() != (n == 0) {
             rec.anomaly("FlatVec: is_empty() inconsistent".into());
         }
+        if n <= self.capacity() && self.is_full() != (n == self.capacity()) {
+            rec.anomaly("FlatVec: is_full() inconsistent".into());
+        }
+        if self.free_space_as_slice().len() != self.capacity().wrapping_sub(n) {
+            rec.anomaly("FlatVec: free_space_as_slice().len() != capacity() - len()".into());
+        }
         let mut xs = Vec::with_capacity(n.min(1 << 16));
         for (i, x) in sl.iter().enumerate() {
             rec.push(i);
@@ -578,6 +586,12 @@ impl<T: SizedShape, L: LenShape> Shape for FlatVec<T, L> {
             }
             Op::VSetAt(i, v) => {
                 self[*i] = T::from_val(v);
+                OpOut::Done
+            }
+            Op::VIterMutFill(v) => {
+                for x in self.iter_mut() {
+                    *x = T::from_val(v);
+                }
                 OpOut::Done
             }
             Op::Assign(..) => unsized_op(self, op),
